@@ -448,7 +448,7 @@ func errorReturns(fn *ssa.Function, idx int) []*ssa.Return {
 			continue
 		}
 		if ret, ok := b.Instrs[len(b.Instrs)-1].(*ssa.Return); ok && idx < len(ret.Results) {
-			if !isNilConst(ret.Results[idx]) {
+			if !isNilConst(retResult(ret, idx)) {
 				out = append(out, ret)
 			}
 		}
